@@ -319,6 +319,38 @@ def gen_shared_templates(rng, how):
     return out
 
 
+def gen_flag_pairs(rng, n_pairs):
+    """systematic stream: an update - the query with keyword arguments A - with B - with A again - ask everything,
+    for ordered pairs (A, B) of the 16 combinations of raw / include_default / is_primitive / inject_missing_fields
+    (every pair with the fully resolved variant, n_pairs of the others; None = all), on a component whose fields
+    mention its own variables only (so that the variants without the inherited variables succeed too) and on an
+    ordinary one"""
+    full = {"raw": False, "incl": True, "prim": False, "inject": True}
+    pairs = [(a, b) for a in K.ALL_FLAGS for b in K.ALL_FLAGS if a != b]
+    must = [(a, b) for (a, b) in pairs if a == full or b == full]
+    rest = [pr for pr in pairs if pr not in must]
+    chosen = must + (rest if n_pairs is None else rng.sample(rest, n_pairs))
+    out = []
+    for (fa, fb) in chosen:
+        doc = base_doc(["c0", "c1"])
+        doc["components"].append({"stage": 0, "name": "solo", "references": [],
+                                  "command": {"executable": "echo", "arguments": "%(x)s %(g)s", "environment": "none"},
+                                  "variables": {"x": "X", "g": "own-g", "s": "local"}})
+        i, n = (0, "solo") if (fa, fb) in must else rng.choice([(0, "solo"), (0, "solo"), (0, "c0"), (1, "c1")])
+        P = rng.choice(PLATFORMS)
+        upd = rng.choice([{"op": "setGlobalVar", "var": "g", "value": "G2"},
+                          {"op": "setStageVar", "stage": 0, "var": "s", "value": "S2"},
+                          {"op": "setVar", "stage": i, "name": n, "var": "x", "value": "X2"},
+                          {"op": "setPlatGlobalVar", "platform": P, "var": "y", "value": "Y2"},
+                          {"op": "setOption", "stage": i, "name": n, "route": "#command.arguments", "value": "%(x)s!"}])
+        q = lambda f: {"op": "queryF", "stage": i, "name": n, "platform": P, "flags": dict(f)}
+        ops = [upd, q(fa), q(fb), q(fa), {"op": "sweep"}]
+        if rng.random() < 0.5:
+            ops.insert(0, {"op": "sweep"})
+        out.append({"kind": "history", "meta": False, "doc": doc, "ops": ops})
+    return out
+
+
 def setter_op(kind, i, n, v, P, value):
     """one call of the setter `kind` that writes `value` to variable / option `v`"""
     if kind in ("setVar", "setVarViaRef"):
@@ -724,6 +756,18 @@ def run_history(case, want_model_ops=True):
             flat.append(op)
             a = apply_op(conc, op, store)
             answers.append(a)
+            if op["op"] == "queryF":
+                # every variant of the query answers what a BRAND NEW object built from the current description
+                # answers (new for each question: the reference must not have been asked anything before)
+                try:
+                    ref = apply_op(F.FlowIRConcrete(conc.raw(), active, {}), op)
+                except Exception as exc:
+                    ref = a
+                    failures.append(("description-cannot-be-reloaded", {"error": type(exc).__name__, "before": op}))
+                if canon(coarse(a)) != canon(coarse(ref)):
+                    failures.append(("query-differs-from-from-scratch-resolution",
+                                     {"query": op, "cached": a, "from_scratch": ref,
+                                      "difference": K.first_difference(ref, a)}))
             if op["op"] in ("query", "queryF"):
                 # private copy: the caller scrambled the answer; the same query again must be unaffected
                 again = apply_op(conc, op)
@@ -1351,7 +1395,11 @@ def run(ctx):
                 "scribbling after add_component, and delete + add out of the same template; the twin and the "
                 "reference objects always receive brand new copies.  A sample of the histories (25 + 4 graph-layer "
                 "ones; thorough 150 + 20) is run AGAIN at the end of the run in another order: the answers must be the "
-                "first ones.  Platform names: FlowIR accepts any string; half of the random histories (both layers), 60% "
+                "first ones.  Every flag-variant query inside a history is compared with the answer of a BRAND NEW "
+                "FlowIRConcrete(raw()) too, and a systematic stream does 'update - query with flags A - with B - with A - ask "
+                "everything' for the ordered pairs (A, B) of the 16 keyword combinations (all 30 with the fully resolved "
+                "variant + 20 others quick / all 240 thorough) on a component that mentions only its own variables (the "
+                "variants without inherited variables succeed there) or an ordinary one.  Platform names: FlowIR accepts any string; half of the random histories (both layers), 60% "
                 "of the systematic 'populate - ONE update - ask again' cases and 30-40% of the other systematic ones "
                 "have their second platform renamed from `p` to a name out of 12 deployment-style names "
                 "(openshift-kubeflux, lsf.cluster, docker/local, OpenShift, ...) or 50 odd ones (regular-expression "
@@ -1392,6 +1440,8 @@ def run(ctx):
     for _ in range(1 if quick else 4):
         cases.extend(maybe_rename(rng, c, 0.4) for c in gen_shared_templates(rng, "add"))
         cases.extend(maybe_rename(rng, c, 0.4) for c in gen_shared_templates(rng, "update"))
+    # two variants of the query back to back (what one of them caches must never answer the other)
+    cases.extend(maybe_rename(rng, c, 0.3) for c in gen_flag_pairs(rng, 20 if quick else None))
     # every platform name of the pools x component-level updates, components at the lexical boundaries of one another
     cases.extend(gen_platform_names(rng, 1 if quick else 5))
     # second layer: the same question through every object of a real experiment graph
